@@ -419,25 +419,6 @@ func wellFormed(m *dm.Message) bool {
 	return true
 }
 
-// svcbTooLong: some SVCB/HTTPS record is longer than 65535 bytes with its Target uncompressed.
-func svcbTooLong(m *dm.Message) bool {
-	for _, sec := range [][]dm.Resource{m.Answers, m.Authorities, m.Additionals} {
-		for i := range sec {
-			switch r := sec[i].Body.(type) {
-			case *dm.SVCBResource:
-				if _, sz := svcbWF(r); sz > 65535 {
-					return true
-				}
-			case *dm.HTTPSResource:
-				if _, sz := svcbWF(&r.SVCBResource); sz > 65535 {
-					return true
-				}
-			}
-		}
-	}
-	return false
-}
-
 // nameShapeOK: what C37 promises about every decoded name.
 func nameShapeOK(s []byte) bool {
 	if len(s) == 0 || len(s) > 255 || s[len(s)-1] != '.' {
@@ -1122,13 +1103,7 @@ func execUnpack(b []byte, o *vu.Out) string {
 	r3 := vu.Catch(func() string {
 		packed, err := m.Pack()
 		if err != nil {
-			// The one region left open (known finding): an SVCB/HTTPS record whose Target was
-			// compressed on the wire no longer fits in 65535 bytes once the Target is written out.
-			sig := ""
-			if tag(err) == "ResTooLong" && svcbTooLong(m) {
-				sig = "repack-ResTooLong-svcb"
-			}
-			o.Fail(sig, fmt.Sprintf("accepted message does not re-pack: %v (input %x)", err, b))
+			o.Fail("", fmt.Sprintf("accepted message does not re-pack: %v (input %x)", err, b))
 			return ""
 		}
 		var m2 dm.Message
